@@ -12,7 +12,7 @@ class ScopeProgram:
         self.c = [r.randrange(1, 20) for _ in range(6)]
         # units: name -> (number of locals/params, may use field names?)
         self.units = {"A": (2, True), "B": (2, False), "C": (1, False), "D": (2, True), "E": (3, True), "M": (3, True), "F": (2, True),
-                      "H": (2, True), "J": (2, False)}
+                      "H": (2, True), "J": (2, False), "N": (3, False)}
         # array-typed locals: in the colliding rendering they carry the name of P's array field
         self.arr_colliding = {"M": "d", "E": "d"}
         self.arr_fresh = {"M": "m_arr_z", "E": "e_arr_z"}
@@ -24,6 +24,9 @@ class ScopeProgram:
             if fields_ok and r.random() < 0.8:
                 pool.sort(key=lambda p: 0 if p in FIELDS else 1)
             self.colliding[u] = pool[:k]
+        # N names further locals of main: the rest of the pool, so that they differ from main's other locals (unit M)
+        self.colliding["N"] = [p for p in POOL if p not in self.colliding["M"]][:3]
+        r.shuffle(self.colliding["N"])
         self.fresh = {u: ["%s_%d_z" % (u.lower(), i) for i in range(k)] for u, (k, _f) in self.units.items()}
         body = ["echo(early({M0}));", "echo(early({M1}) + {M0});", "{ SG<P> gq = new SG<P>(); echo(gq.get()); }", "echo(SN.get());", "{M2}.setn({M0} + 1);", "echo({M0}); echo({M1});", "echo({M2}.addt({M1}));", "echo(helper({M2}, {M0}));",
                 "echo({M0} + {M1});", "echo({M2}.viaThis({M1}));", "{M0} = {M0} + 1;", "echo({M2}.n); echo({M2}.t);",
@@ -62,7 +65,10 @@ class ScopeProgram:
             "function helper(P {E0}, int {E1}) -> int { int[] {EA} = {7, 8, 9}; int {E2} = {E1} + 2 + {EA}[1] - 8; echo({E0}.at({E1})); {E0}.setn({E2}); { SG<SN> gs = new SG<SN>(); {E2} = {E2} + gs.get() - gs.get(); } return {E0}.addt({E1}) + {E2}; }",
             "function main() -> void {",
             "    int {M0} = %d; int {M1} = %d; int[] {MA} = {1, 2, 3};" % (c[2], c[3]),
-            "    P {M2} = new P({M0}, {M1});"] + ["    " + b for b in self.body] + ["}"])
+            "    P {M2} = new P({M0}, {M1});",
+            # three more objects with echoing destructors in the same scope: they die at the end of main in an order that must not depend
+            # on what they are called
+            "    P {N0} = new P(1, 1); P {N1} = new P(2, 2); P {N2} = new P(3, 3);"] + ["    " + b for b in self.body] + ["}"])
         coll = all(names.get(u) == self.colliding.get(u) for u in ("M", "E"))
         for u, key in (("M", "MA"), ("E", "EA")):
             use_coll = names.get(u) == self.colliding.get(u)
